@@ -441,3 +441,48 @@ Lemma rename_duplicate_refuted :
   | None => False
   end.
 Proof. vm_compute. repeat split; reflexivity. Qed.
+
+(* ------------------------------------------------------------------ queries by the new name *)
+(** a matrix / bins query addressed by the NEW name on the renamed collection returns what the query by the
+    OLD name returned on the original: same extent (rename_extent) over untouched columns (rename_frame) *)
+Theorem rename_fetch : forall w f g tc tb names m w' x,
+  shape w f g tc tb names -> rename_chroms w f g m = Some w' ->
+  NoDup (map (subst m) names) -> In x names ->
+  (forall ti, child w f g "indexes"%string = Some ti -> ti <> tc /\ ti <> tb) ->
+  (forall ti, child w f g "indexes"%string = Some ti -> exists d, ds_at w f ti "chrom_offset"%string = Some d) ->
+  (forall tp, child w f g "pixels"%string = Some tp -> tp <> tc /\ tp <> tb) ->
+  (forall col, In col ["bin1_id"; "bin2_id"; "count"]%string -> exists d, column w f g "pixels"%string col = Some d) ->
+  (forall col, In col ["start"; "end"]%string -> exists d, column w f g "bins"%string col = Some d) ->
+  fetch_pixels w' f g (subst m x) = fetch_pixels w f g x /\
+  fetch_bin_coords w' f g (subst m x) = fetch_bin_coords w f g x.
+Proof.
+  intros w f g tc tb names m w' x H R Hnd Hin Hti Hoff Htp Hpx Hbn.
+  assert (forall col, In col ["bin1_id"; "bin2_id"; "count"]%string ->
+            column w' f g "pixels"%string col = column w f g "pixels"%string col) as Kp.
+  { intros col Hc. destruct (Hpx col Hc) as (d & Ed). rewrite Ed.
+    apply (rename_column_kept w f g tc tb names m w' "pixels"%string col d H R).
+    - intro E; inversion E.
+    - intro E; inversion E.
+    - intros t Ht. destruct (Htp t Ht). split; intro; congruence.
+    - exact Ed. }
+  assert (forall col, In col ["start"; "end"]%string ->
+            column w' f g "bins"%string col = column w f g "bins"%string col) as Kb.
+  { intros col Hc. destruct (Hbn col Hc) as (d & Ed). rewrite Ed.
+    apply (rename_column_kept w f g tc tb names m w' "bins"%string col d H R).
+    - intro E; inversion E.
+    - intro E. injection E as E. subst col. simpl in Hc. destruct Hc as [E|[E|[]]]; discriminate.
+    - intros t Ht. rewrite (sh_bins _ _ _ _ _ _ H) in Ht. injection Ht as <-. split; auto.
+      intro E. exfalso. exact (sh_ne3 _ _ _ _ _ _ H (eq_sym E)).
+    - exact Ed. }
+  unfold fetch_pixels, fetch_bin_coords.
+  rewrite (rename_extent _ _ _ _ _ _ _ _ _ H R Hnd Hin Hti Hoff).
+  rewrite !Kp by (simpl; auto). rewrite !Kb by (simpl; auto). auto.
+Qed.
+
+Lemma ex_fetch18 :
+  match rename_chroms w18 FA 0 swap12 with
+  | Some w' => fetch_pixels w' FA 0 "chr2"%string = Some [(1, 2, 5)] /\ fetch_pixels w18 FA 0 "chr1"%string = Some [(1, 2, 5)] /\
+               fetch_bin_coords w' FA 0 "chr2"%string = Some [(0, 10); (10, 20); (20, 25)]
+  | None => False
+  end.
+Proof. vm_compute. repeat split; reflexivity. Qed.
